@@ -95,10 +95,10 @@ class Engine(Interp):
         if isinstance(recv, EnvV):
             return self.env_method(name, args, kwargs, node)
         if isinstance(recv, ObjV):
+            if self.spec.is_abstract(recv.cls) and f"{recv.cls}.{name}" in self.spec.contracts:
+                return self.call_abstract(recv, name, args, kwargs, node)
             fi = self.src.find_method(recv.cls, name)
             if fi is None:
-                if self.spec.is_abstract(recv.cls):
-                    return self.call_abstract(recv, name, args, kwargs, node)
                 raise OutOfSubset(f"no method {recv.cls}.{name}")
             return self.call_function(fi, recv, args, kwargs, node)
         if isinstance(recv, Sym) and recv.kind == 'ref' and recv.cls:
@@ -246,7 +246,9 @@ class Engine(Interp):
         if name == 'get':
             return self.dict_get(d, args[0], node, default=args[1] if len(args) > 1 else None)
         if name == 'items':
-            return Opaque('dict.items')
+            l = fresh_list('items', 'pair:any,any')
+            self.st.assume(l.n == d.nk)
+            return l
         raise OutOfSubset(f"dict method {name}")
 
     def call_builtin(self, name, args, kwargs, node):
@@ -642,6 +644,12 @@ class Engine(Interp):
                 if self.branch(w):
                     if not r.get('unchanged', True):
                         self.havoc_modifies(c, vals)
+                        if c.invariants and not c.assumed:
+                            # the callee re-establishes its invariants on this exceptional exit too (its own obligation)
+                            from .driver import invariant_clauses
+                            nv = SV(self, self.st, vals)
+                            for nm, cl in invariant_clauses(self.spec, self, nv, {'self': vals.get('self')}):
+                                self.st.assume(hyp_of(cl))
                     raise RaiseSig(exc, node=node)
             else:
                 self.oblige(f"exc:{caller}:L{getattr(node, 'lineno', 0)}:{exc}:raised-by-{c.qual}", 'exc', z3.Not(w), node)
